@@ -1551,13 +1551,13 @@ Qed.
 
 (** ** every document the reference reads reaches the backend as the request it denotes *)
 
-Theorem server_denotes_read up path d r c :
+Theorem server_denotes_decoded up path d r c :
   rfc_read d = Some r -> collides d = false -> limit_fits r = true ->
   backend_call_of up path r = Some c ->
-  exists o, handle_report up path d = Ok o /\ canon_outcome o = c.
+  exists o, handle_decoded up path d = Ok o /\ canon_outcome o = c.
 Proof.
   intros H Hc Hl Hb. destruct d as [n a k| |]; try discriminate.
-  unfold rfc_read in H. unfold handle_report.
+  unfold rfc_read in H. unfold handle_decoded.
   apply collides_elem in Hc. destruct Hc as [_ Hc].
   change (NS_CARD, "addressbook-query") with (C "addressbook-query").
   change (NS_CARD, "addressbook-multiget") with (C "addressbook-multiget").
